@@ -1,0 +1,271 @@
+//! `verif-hooks`: read-only dumps of the pool core and thin public wrappers
+//! around crate-private operations, for the external verification harness.
+//! Add-only; compiled only with the cargo feature `verif-hooks`.
+use crate::component::pool_map::PoolEntry;
+use crate::pool::TxPool;
+use ckb_types::{
+    core::{Cycle, TransactionView},
+    packed::{Byte32, OutPoint, ProposalShortId},
+};
+use std::collections::HashSet;
+
+pub use crate::callback::Callbacks;
+pub use crate::component::entry::TxEntry;
+pub use crate::component::pool_map::{PoolMap, Status};
+pub use crate::error::Reject;
+
+/// One pool entry as stored, with its incrementally maintained aggregates.
+#[derive(Debug, Clone)]
+pub struct EntryDump {
+    pub id: ProposalShortId,
+    pub tx_hash: Byte32,
+    pub status: Status,
+    pub size: usize,
+    pub cycles: Cycle,
+    pub fee: u64,
+    pub timestamp: u64,
+    pub ancestors_count: usize,
+    pub ancestors_size: usize,
+    pub ancestors_cycles: Cycle,
+    pub ancestors_fee: u64,
+    pub descendants_count: usize,
+    pub descendants_size: usize,
+    pub descendants_cycles: Cycle,
+    pub descendants_fee: u64,
+    pub inputs: Vec<OutPoint>,
+    pub related_deps: Vec<OutPoint>,
+    pub header_deps: Vec<Byte32>,
+    pub outputs_count: usize,
+    /// stored `score` index key equals the key recomputed from the entry
+    pub score_in_sync: bool,
+    /// stored `evict_key` index key equals the key recomputed from the entry
+    pub evict_key_in_sync: bool,
+}
+
+/// The whole `PoolMap` state (hash-map iteration order; callers sort).
+#[derive(Debug, Clone, Default)]
+pub struct PoolDump {
+    pub entries: Vec<EntryDump>,
+    /// (id, parents, children)
+    pub links: Vec<(ProposalShortId, Vec<ProposalShortId>, Vec<ProposalShortId>)>,
+    pub edge_inputs: Vec<(OutPoint, ProposalShortId)>,
+    pub edge_deps: Vec<(OutPoint, Vec<ProposalShortId>)>,
+    pub edge_header_deps: Vec<(ProposalShortId, Vec<Byte32>)>,
+    pub max_ancestors_count: usize,
+    pub total_tx_size: usize,
+    pub total_tx_cycles: Cycle,
+    pub pending_count: usize,
+    pub gap_count: usize,
+    pub proposed_count: usize,
+}
+
+fn dump_entry(e: &PoolEntry) -> EntryDump {
+    let t = &e.inner;
+    EntryDump {
+        id: e.id.clone(),
+        tx_hash: t.transaction().hash(),
+        status: e.status,
+        size: t.size,
+        cycles: t.cycles,
+        fee: t.fee.as_u64(),
+        timestamp: t.timestamp,
+        ancestors_count: t.ancestors_count,
+        ancestors_size: t.ancestors_size,
+        ancestors_cycles: t.ancestors_cycles,
+        ancestors_fee: t.ancestors_fee.as_u64(),
+        descendants_count: t.descendants_count,
+        descendants_size: t.descendants_size,
+        descendants_cycles: t.descendants_cycles,
+        descendants_fee: t.descendants_fee.as_u64(),
+        inputs: t.transaction().input_pts_iter().collect(),
+        related_deps: t.related_dep_out_points().cloned().collect(),
+        header_deps: t.transaction().header_deps().into_iter().collect(),
+        outputs_count: t.transaction().outputs().len(),
+        score_in_sync: e.score == t.as_score_key(),
+        evict_key_in_sync: e.evict_key == t.as_evict_key(),
+    }
+}
+
+impl PoolMap {
+    /// `add_entry`; returns (inserted, ids evicted while inserting)
+    pub fn verif_add_entry(
+        &mut self,
+        entry: TxEntry,
+        status: Status,
+    ) -> Result<(bool, Vec<ProposalShortId>), Reject> {
+        self.add_entry(entry, status).map(|(succ, evicts)| {
+            (
+                succ,
+                evicts.iter().map(|e| e.proposal_short_id()).collect(),
+            )
+        })
+    }
+
+    /// `remove_entry`
+    pub fn verif_remove_entry(&mut self, id: &ProposalShortId) -> Option<TxEntry> {
+        self.remove_entry(id)
+    }
+
+    /// `remove_entry_and_descendants`
+    pub fn verif_remove_entry_and_descendants(&mut self, id: &ProposalShortId) -> Vec<TxEntry> {
+        self.remove_entry_and_descendants(id)
+    }
+
+    /// `resolve_conflict`; returns the removed entries
+    pub fn verif_resolve_conflict(&mut self, tx: &TransactionView) -> Vec<TxEntry> {
+        self.resolve_conflict(tx)
+            .into_iter()
+            .map(|(e, _)| e)
+            .collect()
+    }
+
+    /// `resolve_conflict_header_dep`; returns the removed entries
+    pub fn verif_resolve_conflict_header_dep(&mut self, headers: &HashSet<Byte32>) -> Vec<TxEntry> {
+        self.resolve_conflict_header_dep(headers)
+            .into_iter()
+            .map(|(e, _)| e)
+            .collect()
+    }
+
+    /// `set_entry` (panics when the id is not pooled, like the original)
+    pub fn verif_set_entry(&mut self, id: &ProposalShortId, status: Status) {
+        self.set_entry(id, status)
+    }
+
+    /// `get`
+    pub fn verif_get(&self, id: &ProposalShortId) -> Option<&TxEntry> {
+        self.get(id)
+    }
+
+    /// status of a pooled entry
+    pub fn verif_status(&self, id: &ProposalShortId) -> Option<Status> {
+        self.get_by_id(id).map(|e| e.status)
+    }
+
+    /// `calc_ancestors`
+    pub fn verif_calc_ancestors(&self, id: &ProposalShortId) -> HashSet<ProposalShortId> {
+        self.calc_ancestors(id)
+    }
+
+    /// `calc_descendants`
+    pub fn verif_calc_descendants(&self, id: &ProposalShortId) -> HashSet<ProposalShortId> {
+        self.calc_descendants(id)
+    }
+
+    /// `find_conflict_tx`
+    pub fn verif_find_conflict_tx(&self, tx: &TransactionView) -> HashSet<ProposalShortId> {
+        self.find_conflict_tx(tx)
+    }
+
+    /// `next_evict_entry`
+    pub fn verif_next_evict_entry(&self, status: Status) -> Option<ProposalShortId> {
+        self.next_evict_entry(status)
+    }
+
+    /// ids in descending score order for a status (`score_sorted_iter_by_status`)
+    pub fn verif_score_sorted_ids(&self, status: Status) -> Vec<ProposalShortId> {
+        self.score_sorted_iter_by_status(status)
+            .map(|e| e.proposal_short_id())
+            .collect()
+    }
+
+    /// Read-only dump of entries, links, edges and counters.
+    pub fn verif_dump(&self) -> PoolDump {
+        PoolDump {
+            entries: self.iter().map(dump_entry).collect(),
+            links: self
+                .links
+                .inner
+                .iter()
+                .map(|(id, l)| {
+                    (
+                        id.clone(),
+                        l.parents.iter().cloned().collect(),
+                        l.children.iter().cloned().collect(),
+                    )
+                })
+                .collect(),
+            edge_inputs: self
+                .edges
+                .inputs
+                .iter()
+                .map(|(o, id)| (o.clone(), id.clone()))
+                .collect(),
+            edge_deps: self
+                .edges
+                .deps
+                .iter()
+                .map(|(o, ids)| (o.clone(), ids.iter().cloned().collect()))
+                .collect(),
+            edge_header_deps: self
+                .edges
+                .header_deps
+                .iter()
+                .map(|(id, hs)| (id.clone(), hs.clone()))
+                .collect(),
+            max_ancestors_count: self.max_ancestors_count,
+            total_tx_size: self.total_tx_size,
+            total_tx_cycles: self.total_tx_cycles,
+            pending_count: self.pending_count,
+            gap_count: self.gap_count,
+            proposed_count: self.proposed_count,
+        }
+    }
+}
+
+impl TxPool {
+    /// the pool core
+    pub fn verif_pool_map(&self) -> &PoolMap {
+        &self.pool_map
+    }
+
+    /// the pool core, mutable
+    pub fn verif_pool_map_mut(&mut self) -> &mut PoolMap {
+        &mut self.pool_map
+    }
+
+    /// `check_rbf` against the pool's own snapshot
+    pub fn verif_check_rbf(&self, entry: &TxEntry) -> Result<HashSet<ProposalShortId>, Reject> {
+        let snapshot = self.cloned_snapshot();
+        self.check_rbf(&snapshot, entry)
+    }
+
+    /// `limit_size`
+    pub fn verif_limit_size(
+        &mut self,
+        callbacks: &Callbacks,
+        current_entry_id: Option<&ProposalShortId>,
+    ) -> Option<Reject> {
+        self.limit_size(callbacks, current_entry_id)
+    }
+
+    /// `remove_expired`
+    pub fn verif_remove_expired(&mut self, callbacks: &Callbacks) {
+        self.remove_expired(callbacks)
+    }
+
+    /// `remove_committed_txs`
+    pub fn verif_remove_committed_txs(
+        &mut self,
+        txs: &[TransactionView],
+        callbacks: &Callbacks,
+        detached_headers: &HashSet<Byte32>,
+    ) {
+        self.remove_committed_txs(txs.iter(), callbacks, detached_headers)
+    }
+
+    /// `remove_by_detached_proposal`
+    pub fn verif_remove_by_detached_proposal(&mut self, ids: &[ProposalShortId]) {
+        self.remove_by_detached_proposal(ids.iter())
+    }
+
+    /// `remove_tx`
+    pub fn verif_remove_tx(&mut self, id: &ProposalShortId) -> bool {
+        self.remove_tx(id)
+    }
+
+    /// `record_conflict`
+    pub fn verif_record_conflict(&mut self, tx: TransactionView) {
+        self.record_conflict(tx)
+    }
+}
